@@ -289,7 +289,12 @@ func (l *localFS) KeysPrefix(_ context.Context, token, prefix, delimiter string,
 	defer l.exclusive.Unlock()
 
 	noRoot := !strings.HasPrefix(prefix, "/")
+	isDir := strings.HasSuffix(prefix, "/")
 	prefix = path.Clean("/" + prefix)
+	if isDir && prefix != "/" {
+		// path.Clean strips the trailing slash: "a/" must not match "ab/..."
+		prefix += "/"
+	}
 
 	// we cache the result for the duration of the fetch loop: during this period, localfs updates are not seen
 	search, ok := l.glob[prefix]
